@@ -185,19 +185,31 @@ func sendPacket(l *NDNLPLinkService, out dispatch.OutPkt) {
 
 	now := time.Now()
 
-	effectiveMtu := l.transport.MTU() - l.headerOverhead
-	if pkt.PitToken != nil {
-		effectiveMtu -= pitTokenOverhead
+	// Space taken in every frame by the LpPacket and Fragment headers
+	// and by the header fields that will be attached to this packet
+	overhead := lpPacketOverhead + 1 + 3
+	if len(out.PitToken) > 0 {
+		overhead += 1 + 3 + len(out.PitToken)
 	}
-	if pkt.CongestionMark != nil {
-		effectiveMtu -= congestionMarkOverhead
+	if l.options.IsIncomingFaceIndicationEnabled && out.InFace != nil {
+		overhead += 3 + 1 + 8
+	}
+	if pkt.CongestionMark != nil || congestionMarking {
+		overhead += congestionMarkOverhead
 	}
 
 	// Fragmentation
 	var fragments []*spec.LpPacket
-	if len(wire) > effectiveMtu {
+	if len(wire)+overhead > l.transport.MTU() {
 		if !l.options.IsFragmentationEnabled {
 			core.LogInfo(l, "Attempted to send frame over MTU on link without fragmentation - DROP")
+			return
+		}
+
+		// Each fragment also carries Sequence, FragIndex and FragCount
+		effectiveMtu := l.transport.MTU() - overhead - 3*(1+1+8)
+		if effectiveMtu <= 0 {
+			core.LogWarn(l, "MTU too small to carry any fragment - DROP")
 			return
 		}
 
